@@ -14,7 +14,9 @@ pcbasic/basic/display/graphics.py:
   * breadth-first 4-connected flood fill
   * pen arithmetic for DRAW on a structured command list (never parses the DRAW text)
 """
+import contextlib
 import logging
+import signal
 from collections import deque
 from fractions import Fraction
 
@@ -69,6 +71,33 @@ def balanced_groups(items, ngroups, cost):
         groups[k].append(it)
         load[k] += cost(it)
     return [g for g in groups if g]
+
+
+# ---------------------------------------------------------------------------------------
+# CPU-time guard around one statement (process CPU time, so machine load cannot trigger it)
+
+class StatementHang(BaseException):
+    """Raised by the guard's timer inside a statement that used up its CPU budget."""
+
+
+def _on_vtalrm(signum, frame):
+    raise StatementHang()
+
+
+@contextlib.contextmanager
+def cpu_guard(seconds):
+    old = signal.signal(signal.SIGVTALRM, _on_vtalrm)
+    signal.setitimer(signal.ITIMER_VIRTUAL, seconds)
+    try:
+        yield
+    finally:
+        signal.setitimer(signal.ITIMER_VIRTUAL, 0)
+        signal.signal(signal.SIGVTALRM, old)
+
+
+def is_hang(exc):
+    """True for StatementHang itself or a harness.Internal wrapping it."""
+    return isinstance(exc, StatementHang) or isinstance(getattr(exc, 'exc', None), StatementHang)
 
 
 # ---------------------------------------------------------------------------------------
